@@ -203,6 +203,16 @@ def run(prop, tier, seed, replay=None):
                                            ["get", "cal1", "t.ics"],
                                            ["multiget", "cal1", [["live", "keep.ics"], ["live", "y.ics"], ["missing", "z.ics"]]]]),
     }
+    # text that looks like an escape sequence, on the collections whose settings live in the
+    # repository configuration (.git/config / config of a bare repository)
+    for k, cfg in (("treecfg", HTTP_CONFIGS[5]), ("barecfg", HTTP_CONFIGS[6])):
+        steps = []
+        for v in ("100%25 cotton", "a%3Bb", "caf%C3%A9 menu", "rate=7%41 \u00fc", "back\\slash\\n", "tab\there", "\"quoted\""):
+            steps.append(["propupdate", "cal1", [["displayname", v]]])
+            steps.append(["propupdate", "ab1", [["comment", v], ["displayname", v + "!"]]])
+        steps.append(["restart"])
+        steps.append(["propupdate", "cal1", [["comment", "100%25"]]])
+        DIRECTED["escape-like-values-" + k] = (cfg, steps)
     for name, (cfg, steps) in sorted(DIRECTED.items()):
         tid += 1
         jobs.append({"kind": "witness", "witness": steps, "cfg": cfg, "tid": tid, "dev": "directed:" + name})
